@@ -3,14 +3,14 @@
 // after every event, the full projection of the oracle's persisted state (prices, nonces, replay
 // log) and of its process-local state (hook H1 dump of agc / cs / updatedFeederIDs).
 //
-//   harness oracle      -in beh.ndjson -out trace.ndjson -cfgs cfgs.json
-//       in-process: every behaviour is executed twice - once with its Restart flags ignored
-//       (the continuous twin) and once with them honoured through the exported Reset* functions;
-//       each line of the second run carries the twin's projection as "cst".
-//   harness oracle-node -db DIR -script beh.json -from k0 -to k1 -out lines.ndjson
-//       one node LIFE as an OS process on a goleveldb directory: executes blocks k0+1..k1 of one
-//       behaviour (InitChain only when k0 = 0) and exits after Commit(k1) (-to -1: run to the end).
-//       A restart is a new process on the same directory: fresh package-level oracle state.
+//	harness oracle      -in beh.ndjson -out trace.ndjson -cfgs cfgs.json
+//	    in-process: every behaviour is executed twice - once with its Restart flags ignored
+//	    (the continuous twin) and once with them honoured through the exported Reset* functions;
+//	    each line of the second run carries the twin's projection as "cst".
+//	harness oracle-node -db DIR -script beh.json -from k0 -to k1 -out lines.ndjson
+//	    one node LIFE as an OS process on a goleveldb directory: executes blocks k0+1..k1 of one
+//	    behaviour (InitChain only when k0 = 0) and exits after Commit(k1) (-to -1: run to the end).
+//	    A restart is a new process on the same directory: fresh package-level oracle state.
 package main
 
 import (
@@ -27,10 +27,13 @@ import (
 	"github.com/cometbft/cometbft/crypto/tmhash"
 	tmproto "github.com/cometbft/cometbft/proto/tendermint/types"
 	"github.com/cosmos/cosmos-sdk/client"
+	cryptocodec "github.com/cosmos/cosmos-sdk/crypto/codec"
 	"github.com/cosmos/cosmos-sdk/crypto/keys/ed25519"
 	sdk "github.com/cosmos/cosmos-sdk/types"
 	"github.com/cosmos/cosmos-sdk/types/tx/signing"
 	authsigning "github.com/cosmos/cosmos-sdk/x/auth/signing"
+	authtypes "github.com/cosmos/cosmos-sdk/x/auth/types"
+	govtypes "github.com/cosmos/cosmos-sdk/x/gov/types"
 	"github.com/evmos/evmos/v16/encoding"
 
 	exocoreapp "github.com/ExocoreNetwork/exocore/app"
@@ -59,6 +62,7 @@ type OCfg struct {
 	Ms  int32              `json:"ms"`  // MaxSizePrices
 	Fd  map[string]OFeeder `json:"fd"`  // feeder -> definition ("f1","f2")
 	Gen map[string]int64   `json:"gen"` // token -> genesis price of round 1 (0 = no genesis round)
+	Ep  int64              `json:"ep"`  // dogfood epoch length in seconds = blocks (0: the default "day" epoch, never ends here)
 }
 
 type OPrice struct {
@@ -80,6 +84,8 @@ type OEvent struct {
 		Cfg     *OCfg  `json:"cfg"`
 		Msgs    []OMsg `json:"msgs"`
 		Restart bool   `json:"restart"`
+		F       string `json:"f"`   // Upd: feeder whose EndBlock is set
+		End     uint64 `json:"end"` // Upd: new EndBlock
 	} `json:"a"`
 }
 
@@ -106,14 +112,17 @@ func sortedKeys[T any](m map[string]T) []string {
 // one node life
 
 type oracleNode struct {
-	cfg     OCfg
-	app     *exocoreapp.ExocoreApp
-	chainID string
-	header  tmproto.Header
-	txCfg   client.TxConfig
-	keys    map[string]*ed25519.PrivKey // "v1" -> consensus key
-	ids     map[string]string           // every string form of a validator -> "v1"
-	nTokens int
+	cfg      OCfg
+	app      *exocoreapp.ExocoreApp
+	chainID  string
+	header   tmproto.Header
+	txCfg    client.TxConfig
+	keys     map[string]*ed25519.PrivKey // "v1" -> consensus key
+	ids      map[string]string           // every string form of a validator -> "v1"
+	nTokens  int
+	lastVU   []jm
+	dbdir    string
+	openHalt string // panic of the first BeginBlock of a restarted life
 }
 
 func oracleGenCfg(c OCfg, dbdir string) GenCfg {
@@ -125,6 +134,12 @@ func oracleGenCfg(c OCfg, dbdir string) GenCfg {
 		gc.Validators = append(gc.Validators, ValCfg{Op: int(idNum(v)) - 1, Power: c.Pw[v]})
 	}
 	gc.DBDir = dbdir
+	if c.Ep > 0 {
+		// a short epoch makes x/operator recompute the voting powers from the oracle price of the staking asset
+		// (token t1) and x/dogfood emit validator updates: the oracle then force-seals every open round
+		gc.Epochs = []EpochCfg{{ID: "verif", Duration: time.Duration(c.Ep) * time.Second}}
+		gc.DogfoodEpoch = "verif"
+	}
 	gc.GenesisTime = oracleGenesisTime
 	gc.OracleMut = func(p *oracletypes.Params, g *oracletypes.GenesisState) {
 		// token 1 = the staking asset's token created by NewWorld; further tokens are plain
@@ -180,6 +195,7 @@ func newOracleNode(c OCfg) *oracleNode {
 
 // fresh chain: InitChain + BeginBlock(1)
 func (n *oracleNode) initChain(dbdir string) {
+	n.dbdir = dbdir
 	w := NewWorld(oracleGenCfg(n.cfg, dbdir))
 	n.app = w.App
 	n.header = w.Header
@@ -188,6 +204,11 @@ func (n *oracleNode) initChain(dbdir string) {
 
 // existing chain: open the DB, BeginBlock(last+1)
 func (n *oracleNode) open(dbdir string) {
+	n.dbdir = dbdir
+	n.lastVU = []jm{}
+	if bz, err := os.ReadFile(dbdir + "/lastvu.json"); err == nil {
+		must(json.Unmarshal(bz, &n.lastVU))
+	}
 	db, err := dbm.NewGoLevelDB("application", dbdir)
 	must(err)
 	n.app = NewApp(db, n.chainID)
@@ -196,8 +217,15 @@ func (n *oracleNode) open(dbdir string) {
 		panic("oracle-node: empty DB but -from > 0")
 	}
 	n.header = n.mkHeader(h + 1)
-	n.app.BeginBlock(abci.RequestBeginBlock{Header: n.header})
-	n.touch()
+	func() {
+		defer func() {
+			if r := recover(); r != nil {
+				n.openHalt = fmt.Sprint(r)
+			}
+		}()
+		n.app.BeginBlock(abci.RequestBeginBlock{Header: n.header})
+		n.touch()
+	}()
 }
 
 func (n *oracleNode) mkHeader(h int64) tmproto.Header {
@@ -289,6 +317,30 @@ func echoMsgs(msgs []OMsg) []jm {
 	return out
 }
 
+// MsgUpdateParams that sets the EndBlock of a token's latest feeder.  On this chain id the authority must be the
+// gov module account, i.e. the message can only come from a passed governance proposal, which x/gov executes by
+// calling the message server in its EndBlocker (before the oracle's).  The driver calls the message server with the
+// gov authority on the deliver-state context at that point of the block (no transaction path, DESIGN 4.2).
+func (n *oracleNode) deliverUpd(f string, end uint64) (ok bool, code uint32, log string, panicked bool) {
+	defer func() {
+		if r := recover(); r != nil {
+			ok, panicked, log = false, true, fmt.Sprint(r)
+		}
+	}()
+	auth := authtypes.NewModuleAddress(govtypes.ModuleName).String()
+	fd := n.cfg.Fd[f]
+	msg := &oracletypes.MsgUpdateParams{Authority: auth, Params: oracletypes.Params{TokenFeeders: []*oracletypes.TokenFeeder{{TokenID: idNum(fd.Tok), EndBlock: end}}}}
+	_, err := oraclekeeper.NewMsgServerImpl(n.app.OracleKeeper).UpdateParams(n.ctx(), msg)
+	if err != nil {
+		lg := err.Error()
+		if len(lg) > 160 {
+			lg = lg[:160]
+		}
+		return false, 1, lg, false
+	}
+	return true, 0, "", false
+}
+
 // EndBlock(h) + Commit
 func (n *oracleNode) endAndCommit() (halt string) {
 	defer func() {
@@ -297,6 +349,14 @@ func (n *oracleNode) endAndCommit() (halt string) {
 		}
 	}()
 	n.app.EndBlock(abci.RequestEndBlock{Height: n.header.Height})
+	// the validator updates x/dogfood produced in this block (what the oracle's EndBlock read)
+	n.lastVU = []jm{}
+	for _, vu := range n.app.StakingKeeper.GetValidatorUpdates(n.ctx()) {
+		pk, err := cryptocodec.FromTmProtoPublicKey(vu.PubKey)
+		must(err)
+		n.lastVU = append(n.lastVU, jm{"v": n.vid(sdk.ConsAddress(pk.Address()).String()), "w": vu.Power})
+	}
+	sort.Slice(n.lastVU, func(i, j int) bool { return n.lastVU[i]["v"].(string) < n.lastVU[j]["v"].(string) })
 	n.app.Commit()
 	return ""
 }
@@ -431,6 +491,18 @@ func (n *oracleNode) dumpAgc(d *aggregator.VDump) (rounds, aggs []jm, powers jm,
 	return rounds, aggs, powers, atoi(d.Total), false
 }
 
+// feeders of a params value as the model's fd function: {"f1": {tok, start, iv, sr, end}, ...}
+func fdOf(fs []*oracletypes.TokenFeeder) jm {
+	out := jm{}
+	for i, f := range fs {
+		if i == 0 || f == nil {
+			continue
+		}
+		out[fid(uint64(i))] = jm{"tok": fmt.Sprintf("t%d", f.TokenID), "start": f.StartBaseBlock, "iv": f.Interval, "sr": f.StartRoundID, "end": f.EndBlock}
+	}
+	return out
+}
+
 func (n *oracleNode) project() jm {
 	ctx := n.ctx()
 	k := n.app.OracleKeeper
@@ -473,11 +545,13 @@ func (n *oracleNode) project() jm {
 	st["rmIdx"] = append([]uint64{}, idx.Index...)
 	pidx, _ := k.GetIndexRecentParams(ctx)
 	st["rpIdx"] = append([]uint64{}, pidx.Index...)
-	rp := []uint64{}
+	rp := []jm{}
 	for _, x := range k.GetAllRecentParams(ctx) {
-		rp = append(rp, x.Block)
+		rp = append(rp, jm{"b": x.Block, "fd": fdOf(x.Params.TokenFeeders)})
 	}
 	st["rparams"] = rp
+	kp := k.GetParams(ctx)
+	st["kfd"] = fdOf(kp.TokenFeeders)
 	vub, found := k.GetValidatorUpdateBlock(ctx)
 	if found {
 		st["vub"] = vub.Block
@@ -488,6 +562,17 @@ func (n *oracleNode) project() jm {
 	mem := oraclekeeper.VerifDump()
 	rounds, aggs, powers, total, isNil := n.dumpAgc(mem.Agc)
 	st["rounds"], st["aggs"], st["powers"], st["total"], st["agcNil"] = rounds, aggs, powers, total, isNil
+	afd := jm{}
+	if mem.Agc != nil {
+		for _, f := range mem.Agc.Feeders {
+			afd[fid(f.ID)] = jm{"tok": fmt.Sprintf("t%d", f.TokenID), "start": f.Start, "iv": f.Interval, "sr": f.StartRd, "end": f.End}
+		}
+	}
+	st["afd"] = afd
+	st["cfd"] = jm{}
+	if mem.Cs != nil && mem.Cs.Params != nil {
+		st["cfd"] = fdOf(mem.Cs.Params.TokenFeeders)
+	}
 	cm := []*oracletypes.MsgItem{}
 	if mem.Cs != nil {
 		for i := range mem.Cs.Msgs {
@@ -521,11 +606,19 @@ func (n *oracleNode) runEvents(events []OEvent, startIdx int, stopAfter int, hon
 		case "Tx":
 			ok, code, lg, pan := n.deliver(e.A.Msgs)
 			emit(i, jm{"ev": "Tx", "a": jm{"msgs": echoMsgs(e.A.Msgs)}, "ok": ok, "code": code, "err": lg, "panic": pan, "st": n.project()})
+		case "Upd":
+			ok, code, lg, pan := n.deliverUpd(e.A.F, e.A.End)
+			emit(i, jm{"ev": "Upd", "a": jm{"f": e.A.F, "end": e.A.End}, "ok": ok, "code": code, "err": lg, "panic": pan, "st": n.project()})
 		case "EndBlock":
 			halt := n.endAndCommit()
 			blocks++
 			if halt == "" && stopAfter >= 0 && blocks == stopAfter {
-				return // the next life emits this event's line
+				// the next life emits this event's line; hand it the validator updates of this block
+				if n.dbdir != "" {
+					bz, _ := json.Marshal(n.lastVU)
+					must(os.WriteFile(n.dbdir+"/lastvu.json", bz, 0o644))
+				}
+				return
 			}
 			if halt == "" && e.A.Restart && honourRestart {
 				oracleResetGlobals()
@@ -533,11 +626,15 @@ func (n *oracleNode) runEvents(events []OEvent, startIdx int, stopAfter int, hon
 			if halt == "" {
 				halt = n.beginNext()
 			}
-			line := jm{"ev": "EndBlock", "a": jm{"restart": e.A.Restart}, "ok": halt == "", "code": 0, "err": halt, "panic": halt != "", "st": n.project()}
-			emit(i, line)
 			if halt != "" {
+				// a block phase panicked: no projection is possible any more (C11_Halt); the behaviour ends
+				if len(halt) > 300 {
+					halt = halt[:300]
+				}
+				emit(i, jm{"ev": "EndBlock", "a": jm{"restart": e.A.Restart, "vu": n.lastVU}, "ok": false, "code": 0, "err": halt, "panic": true, "st": jm{}})
 				return
 			}
+			emit(i, jm{"ev": "EndBlock", "a": jm{"restart": e.A.Restart, "vu": n.lastVU}, "ok": true, "code": 0, "err": "", "panic": false, "st": n.project()})
 		default:
 			panic("oracle: unknown event " + e.Ev)
 		}
@@ -598,7 +695,7 @@ func runOracle(args []string) int {
 				break // halted
 			}
 			line["i"] = i
-			if t, ok := twin[i]; ok {
+			if t, ok := twin[i]; ok && t["panic"] != true {
 				line["cst"], line["cok"] = t["st"], t["ok"]
 			} else {
 				line["cst"], line["cok"] = line["st"], line["ok"]
@@ -657,7 +754,15 @@ func runOracleNode(args []string) int {
 		if n.header.Height != int64(*from)+1 {
 			panic(fmt.Sprintf("oracle-node: DB is at height %d, expected %d", n.header.Height-1, *from))
 		}
-		emit(idx, jm{"ev": "EndBlock", "a": jm{"restart": true}, "ok": true, "code": 0, "err": "", "panic": false, "st": n.project()})
+		if n.openHalt != "" {
+			h := n.openHalt
+			if len(h) > 300 {
+				h = h[:300]
+			}
+			emit(idx, jm{"ev": "EndBlock", "a": jm{"restart": true, "vu": n.lastVU}, "ok": false, "code": 0, "err": h, "panic": true, "st": jm{}})
+			return 0
+		}
+		emit(idx, jm{"ev": "EndBlock", "a": jm{"restart": true, "vu": n.lastVU}, "ok": true, "code": 0, "err": "", "panic": false, "st": n.project()})
 		start = idx + 1
 	}
 	stop := -1
